@@ -111,7 +111,7 @@ class WeightedCalibration(Metric[torch.Tensor]):
         Returns:
             Tensor: The return value of weighted calibration for each task (num_tasks,).
         """
-        if torch.any(self.weighted_target_sum == 0.0):
+        if torch.all(self.weighted_target_sum == 0.0):
             return torch.empty(0)
 
         weighted_calibration = self.weighted_input_sum / self.weighted_target_sum
